@@ -1270,6 +1270,10 @@ class RTCPeerConnection(AsyncIOEventEmitter):
         return receiveParameters
 
     def __setSignalingState(self, state: str) -> None:
+        # "closed" is final: a negotiation call which was suspended while the
+        # connection was being closed must not resurrect it
+        if self.__signalingState == "closed":
+            return
         self.__signalingState = state
         self.emit("signalingstatechange")
 
